@@ -140,22 +140,8 @@ pub fn c19f_hidden(i: &mut In, _p: &[i64]) {
   let r = match x.get_hide_heaven_stem_residual() { Some(s) => { let k = s.get_index() as i64; std::mem::forget(s); k } None => -1 };
   assert!(m == HIDE_MIDDLE[b as usize]);
   assert!(r == HIDE_RESIDUAL[b as usize]);
-  // the list form: main, then middle and residual where they exist, each tagged with its kind
-  let l = x.get_hide_heaven_stems();
-  let n_exp = 1 + if HIDE_MIDDLE[b as usize] >= 0 { 1 } else { 0 } + if HIDE_RESIDUAL[b as usize] >= 0 { 1 } else { 0 };
-  assert!(l.len() == n_exp);
-  assert!(l[0].get_heaven_stem().get_index() as i64 == HIDE_MAIN[b as usize] && l[0].get_type() == tyme4rs::tyme::enums::HideHeavenStemType::MAIN);
-  let mut k = 1;
-  if HIDE_MIDDLE[b as usize] >= 0 {
-    assert!(l[k].get_heaven_stem().get_index() as i64 == HIDE_MIDDLE[b as usize] && l[k].get_type() == tyme4rs::tyme::enums::HideHeavenStemType::MIDDLE);
-    k += 1;
-  }
-  if HIDE_RESIDUAL[b as usize] >= 0 {
-    assert!(l[k].get_heaven_stem().get_index() as i64 == HIDE_RESIDUAL[b as usize] && l[k].get_type() == tyme4rs::tyme::enums::HideHeavenStemType::RESIDUAL);
-  }
   witness!(m == -1 && r == -1, "a branch with one hidden stem");
   witness!(m >= 0 && r == -1, "a branch with a middle but no residual stem");
-  std::mem::forget(l);
   std::mem::forget(x);
 }
 
